@@ -346,6 +346,10 @@ def run(spec, ctx):
         finally:
             ZF.os = old
         results.append(res)
+        if res.raised and spec.get('vanish') and simos.vanished and \
+                res.raised[0] in ('FileNotFoundError', 'OSError', 'NotADirectoryError'):
+            # (fail-stop on the race is not a wrong answer: nothing was loaded or run)
+            break
         if res.raised:
             viols.append(C.viol('C14/run-aborted/%s' % _ws.frames_sig(res.raised),
                                 repr(res.raised)))
@@ -397,6 +401,8 @@ def run(spec, ctx):
         viols.append(C.viol('C14/order-depends-on-enumeration',
                             'listings under three enumeration orders: %r' % (listings,)))
     for r in results:
+        if r.raised:
+            r.raised = tuple(str(x).replace(top, '<W>') for x in r.raised)
         r.out = [(t, x.replace(top, '<W>')) for t, x in r.out]
         r.trace = [[e[0], e[1], str(e[2]).replace(top, '<W>'), e[3], e[4]] for e in r.trace]
     nt = len(want) >= 2 or bool(never) or len(opt) > 1
